@@ -697,7 +697,7 @@ func judge(o *outcome, r *respgen.Response, cfg respgen.Config, cl respgen.Class
 }
 
 // judgeStatusError checks how a non-101 status is reported. When the status
-// line is complete, of the plain form "HTTP/1.x SP digits SP reason" with a
+// line is complete, of the plain form "HTTP/1.x SP 3DIGIT SP reason" with a
 // valid version and a status value other than 101, the error has to be a
 // ws.StatusError carrying exactly that value and its text has to mention it;
 // an installed OnStatusError callback is called once with the same status, the
@@ -716,7 +716,7 @@ func judgeStatusError(o *outcome) string {
 	line := strings.TrimSuffix(string(o.sent[:nl]), "\r")
 	parts := strings.SplitN(line, " ", 3)
 	expect := -1 // the status that has to be reported, if determined
-	if len(parts) == 3 && respgen.ClassifyVersion(parts[0]) == "" && len(parts[1]) <= 9 && respgen.ClassifyStatus(parts[1]) == "fail:status:value" {
+	if len(parts) == 3 && respgen.ClassifyVersion(parts[0]) == "" && len(parts[1]) == 3 && respgen.ClassifyStatus(parts[1]) == "fail:status:value" {
 		expect, _ = strconv.Atoi(parts[1])
 	}
 	if expect >= 0 && !isSE {
@@ -1755,8 +1755,8 @@ func TestModelSelfCheck(t *testing.T) {
 	if a := respgen.Accept("dGhlIHNhbXBsZSBub25jZQ=="); a != "s3pPLMBiTxaQ9kYGzzhZRbK+xOo=" {
 		fail("Accept of the RFC 6455 sample key = %q", a)
 	}
-	for tok, want := range map[string]string{"101": "", "0101": "open:status:leading-zero", "100": "fail:status:value", "0:1": "fail:status:nondigit",
-		"9;": "fail:status:nondigit", "18446744073709551717": "fail:status:value", "": "fail:status:nondigit", "1010": "fail:status:value", "00000101": "open:status:leading-zero"} {
+	for tok, want := range map[string]string{"101": "", "0101": "fail:status:not-literal", "100": "fail:status:value", "0:1": "fail:status:nondigit",
+		"9;": "fail:status:nondigit", "18446744073709551717": "fail:status:value", "": "fail:status:nondigit", "1010": "fail:status:value", "00000101": "fail:status:not-literal"} {
 		if got := respgen.ClassifyStatus(tok); got != want {
 			fail("ClassifyStatus(%q) = %q, want %q", tok, got, want)
 		}
@@ -1828,7 +1828,7 @@ func TestModelSelfCheck(t *testing.T) {
 		"ext-case": {mod(func(r *respgen.Response) {
 			r.Lines = append(r.Lines, respgen.Line{Name: "Sec-WebSocket-Extensions", Pre: " ", Value: "X-A"})
 		}), respgen.Open},
-		"0101":     {mod(func(r *respgen.Response) { r.Status = "0101" }), respgen.Open},
+		"0101":     {mod(func(r *respgen.Response) { r.Status = "0101" }), respgen.MustFail},
 		"0101+bad": {mod(func(r *respgen.Response) { r.Status = "0101"; r.Lines[0].Value = "h2c" }), respgen.MustFail},
 		"cut":      {mod(func(r *respgen.Response) { r.Cut = 10 }), respgen.MustFail},
 	} {
